@@ -295,6 +295,45 @@ def drop_cases():
             ("result", "or_else", recv, ", |e| Err::<Dc, Dc>(Dc(e.0 + 10))", ".or_else(|e| Err::<Dc, Dc>(Dc(e.0 + 10)))", 1 if ok else 2),
         ]
     out = []
+    # rebind_if_ok! / try_rebind! / try_! / try_opt! moving owning components out of the payload: the hand-written
+    # `if let` / `match` / `?` is the reference
+    for src, nd in (("Ok::<(Dc, Dc, Dc), Dc>((Dc(3), Dc(4), Dc(5)))", 3), ("Err::<(Dc, Dc, Dc), Dc>(Dc(9))", 1)):
+        for pat, ref in (("(a, b, let c)", "(x, y, c)"), ("(a, _, b)", "(x, _, y)"), ("(let c, b, a)", "(c, y, x)"),
+                         ("(_, a, _)", "(_, x, _)"), ("(let c: Dc, a, b)", "(c, x, y)")):
+            has_b, has_c = "y" in ref, "c" in ref
+            tail_k = "format!(\"{:?} {:?}\", a, b)"
+            kb = ("let mut a = Dc(1); let mut b = Dc(2); let mut seen = 0; konst::rebind_if_ok!{%s = %s => %s} %s"
+                  % (pat, src, "seen = c.0;" if has_c else "seen = 1;", "format!(\"{:?} {:?} {}\", a, b, seen)"))
+            sb = ("let mut a = Dc(1); let mut b = Dc(2); let mut seen = 0; if let Ok(%s) = %s { a = x; %s %s } %s"
+                  % (ref, src, "b = y;" if has_b else "", "seen = c.0;" if has_c else "seen = 1;",
+                     "format!(\"{:?} {:?} {}\", a, b, seen)"))
+            drops = 2 + nd
+            body = (DROP_ITEMS + "let k = { %s }; let kd = D.swap(0, SeqCst); let s = { %s }; let sd = D.swap(0, SeqCst); "
+                    "format!(\"{} {} {} {}\", k == s, kd, sd, %d)" % (kb, sb, drops))
+            out.append((body, "true %d %d %d" % (drops, drops, drops),
+                        {"m": "OptRes", "mac": "rebind_if_ok!(owning values)", "pat": pat, "src": src}))
+            kf = ("fn kf() -> Result<String, Dc> { let mut a = Dc(1); let mut b = Dc(2); konst::try_rebind!{%s = %s} "
+                  "Ok(format!(\"{:?} {:?} %s\", a, b%s)) }" % (pat, src, "{:?}" if has_c else "", ", c" if has_c else ""))
+            sf = ("fn sf() -> Result<String, Dc> { let mut a = Dc(1); let mut b = Dc(2); let %s = (%s)?; a = x; %s "
+                  "Ok(format!(\"{:?} {:?} %s\", a, b%s)) }" % (ref, src, "b = y;" if has_b else "", "{:?}" if has_c else "", ", c" if has_c else ""))
+            body = (DROP_ITEMS + kf + " " + sf + " let k = format!(\"{:?}\", kf()); let kd = D.swap(0, SeqCst); "
+                    "let s = format!(\"{:?}\", sf()); let sd = D.swap(0, SeqCst); format!(\"{} {} {} {}\", k == s, kd, sd, %d)" % drops)
+            out.append((body, "true %d %d %d" % (drops, drops, drops),
+                        {"m": "OptRes", "mac": "try_rebind!(owning values)", "pat": pat, "src": src}))
+    for v, d0, d1 in (("Ok::<Dc, Dc>(Dc(1))", 1, 1), ("Err::<Dc, Dc>(Dc(3))", 1, 2)):
+        for mac_k, mac_s, d in (("konst::try_!(r)", "r?", d0),
+                                ("konst::try_!(r, map_err = |e| Dc(e.0 + 10))", "r.map_err(|e| Dc(e.0 + 10))?", d1)):
+            body = (DROP_ITEMS + "fn kf(r: Result<Dc, Dc>) -> Result<u32, Dc> { let x = %s; Ok(x.0) } "
+                    "fn sf(r: Result<Dc, Dc>) -> Result<u32, Dc> { let x = %s; Ok(x.0) } "
+                    "let k = format!(\"{:?}\", kf(%s)); let kd = D.swap(0, SeqCst); let s = format!(\"{:?}\", sf(%s)); "
+                    "let sd = D.swap(0, SeqCst); format!(\"{} {} {} {}\", k == s, kd, sd, %d)" % (mac_k, mac_s, v, v, d))
+            out.append((body, "true %d %d %d" % (d, d, d), {"m": "OptRes", "mac": "try_!(owning values)", "form": mac_k, "arg": v}))
+    for v, d in (("Some(Dc(1))", 1), ("None::<Dc>", 0)):
+        body = (DROP_ITEMS + "fn kf(r: Option<Dc>) -> Option<u32> { let x = konst::try_opt!(r); Some(x.0) } "
+                "fn sf(r: Option<Dc>) -> Option<u32> { let x = r?; Some(x.0) } "
+                "let k = format!(\"{:?}\", kf(%s)); let kd = D.swap(0, SeqCst); let s = format!(\"{:?}\", sf(%s)); "
+                "let sd = D.swap(0, SeqCst); format!(\"{} {} {} {}\", k == s, kd, sd, %d)" % (v, v, d))
+        out.append((body, "true %d %d %d" % (d, d, d), {"m": "OptRes", "mac": "try_opt!(owning values)", "arg": v}))
     for fam, mac, recv, rest, stdcall, drops in rows:
         body = (DROP_ITEMS + "let k = { let r = konst::%s::%s!(%s%s); format!(\"{:?}\", r) }; let kd = D.swap(0, SeqCst); "
                 "let s = { let r = (%s)%s; format!(\"{:?}\", r) }; let sd = D.swap(0, SeqCst); "
